@@ -363,6 +363,7 @@ class Facts:
         if os.environ.get('VF_NO_INLINE') != '1':
             import inline
             inline.normalise(self)
+            inline.normalise_loops(self)
 
     def fatfs_fns(self):
         return [f for f in self.fns.values() if f.crate == 'fatfs']
